@@ -115,7 +115,7 @@ def run(ctx):
 
     # 2. binding: behaviours from TLC -simulate, replayed on the real stack
     nruns = 10 if thorough else 2
-    per_run = 260 if thorough else 110
+    per_run = 260 if thorough else 140
     behaviours = []
     for i in range(nruns):
         behaviours += ctx.tlc_simulate(FAMILY, "RpcReadMBT.tla", "RpcRead_sim.cfg", depth=(STEPS + 1) * per_run,
@@ -125,8 +125,12 @@ def run(ctx):
     ctx.coverage["behaviours_generated"] = len(behaviours)
     shapes = shape_counts(behaviours)
     ctx.coverage.update(shapes)
-    missing = [m + ":" + k for m in BY_HASH for k in sorted(set(KIND.values()))
-               if shapes.get("dropped_hash_reads_slot_occupied:%s:%s" % (m, k), 0) == 0]
+    def occ(m, k):
+        return shapes.get("dropped_hash_reads_slot_occupied:%s:%s" % (m, k), 0)
+    kinds = sorted(set(KIND.values()))
+    missing = [k for k in kinds if sum(occ(m, k) for m in BY_HASH) == 0]
+    missing += [m for m in BY_HASH if sum(occ(m, k) for k in kinds) == 0]
+    missing += [m + ":L1_HANDLER" for m in BY_HASH if occ(m, "L1_HANDLER") == 0]
     if missing:
         raise vlib.Broken("behaviours are vacuous for reverted transaction hashes: no by-hash read of a dropped "
                           "transaction whose old (number, index) slot is occupied by the fork block for %s" % missing)
